@@ -494,10 +494,9 @@ func body(t *testing.T, c *vk.Ctx) {
 			c.FlushAndExit()
 		}
 		ex.OnExec = func(r *sched.Result) { met = judge(c, sc, r) || met }
-		// determinism: the default schedule twice
-		r1 := ex.Run(sc.sched(), nil)
-		r2 := ex.Run(sc.sched(), nil)
-		if d := sched.SameTrace(r1, r2); d != "" {
+		// determinism: the default schedule must be replayable
+		r1, d := ex.CheckReplayable(sc.sched())
+		if d != "" {
 			c.Broken("scenario %s: default schedule is not deterministic: %s", sc, d)
 			continue
 		}
